@@ -54,12 +54,16 @@ func guardDocs() []document.Document {
 			d[""] = 3
 		}
 
-		// through bytes, as documents are held after resolution
+		// through bytes and the library's own reader, as documents are held after resolution; with numbers, inside a
+		// key and a service, that a double does not hold exactly (however the reader keeps them: they stay what it made
+		// of them)
 		raw, _ := json.Marshal(d)
+		text := strings.Replace(string(raw), `"type":`, `"serial":12345678901234567890,"ratio":0.1234567890123456789,"type":`, -1)
 
-		var out document.Document
-
-		_ = json.Unmarshal(raw, &out)
+		out, err := document.FromBytes([]byte(text))
+		if err != nil {
+			fatalf("guard document: %v", err)
+		}
 
 		return out
 	}
